@@ -3,13 +3,21 @@ import CedarVerif.Lemmas.JsonRefuse
 import CedarVerif.Lemmas.JsonExt
 import CedarVerif.Lemmas.JsonEntity
 import CedarVerif.Lemmas.JsonTypedMain
+import CedarVerif.Lemmas.JsonIp
 /-
 C10 — entity / context / value JSON round trip; schema-directed parsing agrees with the escapes.
 
 Model: `Cedar/Json/{Json,SchemaType,Value}.lean` (mirrors of `CedarValueJson`, `from_value`, `into_expr`,
 `ValueParser::val_into_restricted_expr`, `EntityJson`), tied to the code by the `c10` stream.
 Hypotheses that appear below are facts about Rust values: `WF v` (longs are i64, entity type names are `Name`s,
-records are key-sorted `BTreeMap`s).
+records are key-sorted `BTreeMap`s), `RustExt` (i64 payloads, u32/u128 addresses, prefix within the family's width),
+`ClosedType τ` (closed record types whose attribute maps are `BTreeMap`s).
+
+What is proved: `json_roundtrip` (+ `_rustExt`: no hypothesis left; `ExtRoundTrip` holds for decimal, datetime,
+duration, every IPv4 value and every IPv6 value that is not IPv4-mapped, and is FALSE for IPv4-mapped IPv6 addresses —
+`extRoundTrip_ip_v6_mapped_false`, a recorded observation); `toJson_refuses_iff`; `typed_agrees_explicit` for all
+nesting depths over closed record types (the unrestricted statement is proved false: `typedAgreesExplicit_unrestricted_false`);
+`entity_roundtrip`, `store_roundtrip`.
 -/
 namespace Cedar.C10
 open Cedar Cedar.CJson
@@ -22,6 +30,45 @@ def ExtRoundTrip (x : Ext) : Prop := LeafOK canonRepr x
 theorem extRoundTrip_duration (ms : Int) (h : inI64 ms = true) : ExtRoundTrip (.duration ms) := leaf_duration ms h
 theorem extRoundTrip_datetime (ms : Int) (h : inI64 ms = true) : ExtRoundTrip (.datetime ms) := leaf_datetime ms h
 theorem extRoundTrip_decimal (v : Int) (h : inI64 v = true) : ExtRoundTrip (.decimal v) := leaf_decimal v h
+
+/-- ipaddr: the leaf round trips exactly when `ip()` parses the canonical text `Display` prints back to the same
+    (family, address, prefix) -/
+theorem extRoundTrip_ip_iff (v6 : Bool) (a p : Nat) :
+    ExtRoundTrip (.ipaddr v6 a p) ↔
+      Ext.IPAddr.parse (String.ofList (renderIp v6 a p)) = some (.ipaddr v6 a p) := by
+  constructor
+  · intro h
+    cases hp : decide (Ext.IPAddr.parse (String.ofList (renderIp v6 a p)) = some (.ipaddr v6 a p)) with
+    | true => exact of_decide_eq_true hp
+    | false => exact absurd h (not_leaf_ip_of_parse v6 a p (of_decide_eq_false hp))
+  · exact leaf_ip_of_parse v6 a p
+
+/-- **every IPv4 value round trips** (32-bit address, prefix ≤ 32: what an `IPAddr` holding an `Ipv4Addr` is) -/
+theorem extRoundTrip_ip_v4 (a p : Nat) (ha : a < 2 ^ 32) (hp : p ≤ 32) : ExtRoundTrip (.ipaddr false a p) :=
+  leaf_ip_v4 a p ha hp
+
+/-- **every IPv6 value that is not an IPv4-mapped address round trips** (128-bit address, prefix ≤ 128;
+    `isV4Mapped a` = the first five segments are 0 and the sixth is `ffff`, the case `Display for Ipv6Addr` prints
+    with an embedded dotted quad) -/
+theorem extRoundTrip_ip_v6 (a p : Nat) (ha : a < 2 ^ 128) (hp : p ≤ 128) (hm : isV4Mapped a = false) :
+    ExtRoundTrip (.ipaddr true a p) :=
+  leaf_ip_v6 a p ha hp hm
+
+/-- **the excluded class, a recorded observation**: for an IPv4-mapped IPv6 address the canonical text is
+    `::ffff:a.b.c.d/p`, which `ip()` refuses (≥ 2 ':' and ≥ 2 '.'), so such a value does NOT round trip through its
+    `canonical_repr` — for every prefix. (The implementation agrees: `c10` stream; such values can only be built by
+    `ip()` from a pure-hex spelling, e.g. `ip("::ffff:102:304")`, and Rust serialises the constructor call it
+    stored, not the canonical text.) -/
+theorem extRoundTrip_ip_v6_mapped_false (a p : Nat) (hm : isV4Mapped a = true) : ¬ ExtRoundTrip (.ipaddr true a p) :=
+  not_leaf_ip_v6_mapped a p hm
+
+example : ExtRoundTrip (.ipaddr false 0xc0a80001 24) := extRoundTrip_ip_v4 _ _ (by decide) (by decide)
+example : ExtRoundTrip (.ipaddr true 1 128) := extRoundTrip_ip_v6 _ _ (by decide) (by decide) (by decide)
+example : ExtRoundTrip (.ipaddr true (255 * 2 ^ 120) 8) := extRoundTrip_ip_v6 _ _ (by decide) (by decide) (by decide)
+example : String.ofList (renderIp true 0xffff01020304 128) = "::ffff:1.2.3.4/128" ∧
+    Ext.IPAddr.parse "::ffff:102:304" = some (.ipaddr true 0xffff01020304 128) ∧
+    ¬ ExtRoundTrip (.ipaddr true 0xffff01020304 128) :=
+  ⟨by decide +kernel, by decide +kernel, extRoundTrip_ip_v6_mapped_false _ _ (by decide)⟩
 
 /-- what `ExtRoundTrip x` means at the level of `ofJson`/`toJson` -/
 theorem extRoundTrip_ofJson (x : Ext) (h : ExtRoundTrip x) :
@@ -60,7 +107,9 @@ theorem json_roundtrip_with (ρ : Ext → String × List Expr) (v : Value) (j : 
 
 /-- **json_roundtrip**: `toJson v = ok j → ofJson j = ok v'` with `v' == v` (Cedar equality), for every
     well-formed value — nested sets and records, entity references, strings, i64 extremes — whose extension
-    leaves satisfy `ExtRoundTrip` (proved for decimal, datetime, duration; a hypothesis for ipaddr). -/
+    leaves satisfy `ExtRoundTrip` (proved for decimal, datetime, duration, every IPv4 value and every IPv6 value
+    that is not IPv4-mapped; false for IPv4-mapped IPv6 addresses: `extRoundTrip_ip_v6_mapped_false`;
+    hypothesis-free version: `json_roundtrip_rustExt`). -/
 theorem json_roundtrip (v : Value) (j : Json) (hwf : WF v) (hext : AllExt ExtRoundTrip v) (h : toJson v = .ok j) :
     ∃ v', ofJson j = .ok v' ∧ Value.beq v v' = true :=
   json_roundtrip_with canonRepr v j hwf hext h
@@ -78,6 +127,35 @@ theorem extRoundTrip_of_noIp (x : Ext) (h : NoIp x) : ExtRoundTrip x := by
   | datetime ms => exact extRoundTrip_datetime ms h
   | duration ms => exact extRoundTrip_duration ms h
   | ipaddr => exact absurd h id
+
+/-- the extension values a Rust `Value` can hold — i64 payloads; an `IPAddr` is a u32 address with prefix ≤ 32 or a
+    u128 address with prefix ≤ 128 — minus the IPv4-mapped IPv6 addresses -/
+def RustExt : Ext → Prop
+  | .decimal v => inI64 v = true
+  | .datetime ms => inI64 ms = true
+  | .duration ms => inI64 ms = true
+  | .ipaddr false a p => a < 2 ^ 32 ∧ p ≤ 32
+  | .ipaddr true a p => a < 2 ^ 128 ∧ p ≤ 128 ∧ isV4Mapped a = false
+
+theorem extRoundTrip_of_rustExt (x : Ext) (h : RustExt x) : ExtRoundTrip x := by
+  cases x with
+  | decimal v => exact extRoundTrip_decimal v h
+  | datetime ms => exact extRoundTrip_datetime ms h
+  | duration ms => exact extRoundTrip_duration ms h
+  | ipaddr v6 a p =>
+    cases v6 with
+    | false => exact extRoundTrip_ip_v4 a p h.1 h.2
+    | true => exact extRoundTrip_ip_v6 a p h.1 h.2.1 h.2.2
+
+/-- within the value ranges of Rust extension values, `ExtRoundTrip` fails exactly on the IPv4-mapped IPv6 addresses -/
+theorem extRoundTrip_ip_v6_iff (a p : Nat) (ha : a < 2 ^ 128) (hp : p ≤ 128) :
+    ExtRoundTrip (.ipaddr true a p) ↔ isV4Mapped a = false := by
+  constructor
+  · intro h
+    cases hm : isV4Mapped a with
+    | false => rfl
+    | true => exact absurd h (extRoundTrip_ip_v6_mapped_false a p hm)
+  · exact extRoundTrip_ip_v6 a p ha hp
 
 mutual
 theorem allExt_mono {P Q : Ext → Prop} (hpq : ∀ x, P x → Q x) : ∀ v, AllExt P v → AllExt Q v
@@ -97,6 +175,21 @@ end
 theorem json_roundtrip_noIp (v : Value) (j : Json) (hwf : WF v) (hext : AllExt NoIp v) (h : toJson v = .ok j) :
     ∃ v', ofJson j = .ok v' ∧ Value.beq v v' = true :=
   json_roundtrip v j hwf (allExt_mono extRoundTrip_of_noIp v hext) h
+
+/-- **json_roundtrip, no hypothesis left**: for every well-formed value whose extension leaves are Rust extension
+    values other than IPv4-mapped IPv6 addresses (all four extension types, both ip families) -/
+theorem json_roundtrip_rustExt (v : Value) (j : Json) (hwf : WF v) (hext : AllExt RustExt v) (h : toJson v = .ok j) :
+    ∃ v', ofJson j = .ok v' ∧ Value.beq v v' = true :=
+  json_roundtrip v j hwf (allExt_mono extRoundTrip_of_rustExt v hext) h
+
+example : ∃ j v', toJson (.set [.ext (.ipaddr false 0x0a000001 8), .ext (.ipaddr true (2 ^ 112) 16)]) = .ok j ∧
+    ofJson j = .ok v' ∧ Value.beq (.set [.ext (.ipaddr false 0x0a000001 8), .ext (.ipaddr true (2 ^ 112) 16)]) v' = true := by
+  have hx : AllExt RustExt (.set [.ext (.ipaddr false 0x0a000001 8), .ext (.ipaddr true (2 ^ 112) 16)]) := by
+    simp only [AllExt, AllExtList, RustExt]
+    decide
+  obtain ⟨c, hc⟩ := (refuse_value (.set [.ext (.ipaddr false 0x0a000001 8), .ext (.ipaddr true (2 ^ 112) 16)])).2 (by decide)
+  obtain ⟨v', h1, h2⟩ := json_roundtrip_rustExt _ c.toJson (by simp [WF, WFList]) hx (by simp [toJson, toJsonWith, hc])
+  exact ⟨c.toJson, v', by simp [toJson, toJsonWith, hc], h1, h2⟩
 
 /-- non-vacuity: a nested value with an entity reference, an i64 extreme, an empty set, a record whose keys
     look like escape payload fields, and extension values -/
